@@ -330,3 +330,102 @@ func vC15TagWalk(rr dns.RR) (string, bool) {
 	}
 	return strings.Join(parts, " ++ "), true
 }
+
+// vC15OptionOctets: the wire octets of the EDNS option kinds that are more than their field
+// octets, from the RFCs (7871, 7314, 7828, 6975, 9567, 9660, the LLQ / UL drafts) — not through
+// the option's pack method.  ok=false: a value the library refuses (bad family / netmask /
+// address) or a name this encoder does not take.
+func vC15OptionOctets(o dns.EDNS0) ([]byte, bool) {
+	u16 := func(v uint16) []byte { return []byte{byte(v >> 8), byte(v)} }
+	u32 := func(v uint32) []byte { return []byte{byte(v >> 24), byte(v >> 16), byte(v >> 8), byte(v)} }
+	switch e := o.(type) {
+	case *dns.EDNS0_SUBNET:
+		switch e.Family {
+		case 0:
+			if e.SourceNetmask != 0 {
+				return nil, false
+			}
+			return []byte{0, 0, 0, e.SourceScope}, true
+		case 1, 2:
+			bits, ip := 32, e.Address.To4()
+			if e.Family == 2 {
+				bits, ip = 128, e.Address
+				if len(ip) != net.IPv6len {
+					return nil, false
+				}
+			} else if len(ip) != net.IPv4len {
+				return nil, false
+			}
+			if int(e.SourceNetmask) > bits {
+				return nil, false
+			}
+			need := (int(e.SourceNetmask) + 7) / 8
+			out := append(u16(e.Family), e.SourceNetmask, e.SourceScope)
+			masked := make([]byte, len(ip))
+			for i := range ip {
+				keep := int(e.SourceNetmask) - 8*i
+				switch {
+				case keep >= 8:
+					masked[i] = ip[i]
+				case keep > 0:
+					masked[i] = ip[i] & (0xFF << (8 - keep))
+				}
+			}
+			return append(out, masked[:need]...), true
+		}
+		return nil, false
+	case *dns.EDNS0_UL:
+		if e.KeyLease == 0 {
+			return u32(e.Lease), true
+		}
+		return append(u32(e.Lease), u32(e.KeyLease)...), true
+	case *dns.EDNS0_LLQ:
+		out := append(append(u16(e.Version), u16(e.Opcode)...), u16(e.Error)...)
+		out = append(out, u32(uint32(e.Id>>32))...)
+		out = append(out, u32(uint32(e.Id))...)
+		return append(out, u32(e.LeaseLife)...), true
+	case *dns.EDNS0_DAU:
+		return e.AlgCode, true
+	case *dns.EDNS0_DHU:
+		return e.AlgCode, true
+	case *dns.EDNS0_N3U:
+		return e.AlgCode, true
+	case *dns.EDNS0_EXPIRE:
+		if e.Empty {
+			return nil, true
+		}
+		return u32(e.Expire), true
+	case *dns.EDNS0_TCP_KEEPALIVE:
+		if e.Timeout > 0 {
+			return u16(e.Timeout), true
+		}
+		return nil, true
+	case *dns.EDNS0_ESU:
+		return []byte(e.Uri), true
+	case *dns.EDNS0_ZONEVERSION:
+		return append([]byte{e.LabelCount, e.Type}, e.Version...), true
+	case *dns.EDNS0_REPORTING:
+		// the agent domain in uncompressed wire form
+		s := e.AgentDomain
+		if strings.Contains(s, "\\") {
+			return nil, false
+		}
+		if s == "" || s == "." {
+			return []byte{0}, true
+		}
+		s = strings.TrimSuffix(s, ".")
+		var out []byte
+		for _, lab := range strings.Split(s, ".") {
+			if lab == "" || len(lab) > 63 {
+				return nil, false
+			}
+			out = append(append(out, byte(len(lab))), lab...)
+		}
+		out = append(out, 0)
+		if len(out) > 255 {
+			return nil, false
+		}
+		return out, true
+	}
+	return nil, false
+}
